@@ -40,7 +40,7 @@ def tier_config(prop, tier):
 
 EVAL_OPS = [
     ("pdf", 5), ("cdf", 0.5), ("marginal_pdf", 1.2), ("marginal_cdf", 0.8), ("marginal_icdf", 1.2), ("conditional_cdf", 1.5), ("conditional_icdf", 1.5), ("dist_icdf", 1.5), ("dist_pdf", 1.5),
-    ("draw_int", 3), ("draw_gen", 2), ("iform", 3), ("isorm", 2), ("hdc", 1.5), ("hdc_small", 0.8), ("direct", 1.5), ("and", 1), ("or", 1), ("design", 1.5),
+    ("draw_int", 3), ("draw_gen", 2), ("iform", 3), ("isorm", 2), ("hdc", 1.5), ("hdc_small", 0.8), ("direct", 1.5), ("and", 1), ("or", 1), ("design", 1.5), ("design_twice", 1.0),
     ("plot_contour", 2), ("plot_iso", 0.8), ("plot_dep", 1.2), ("plot_mq", 0.5), ("plot_hist", 0.8), ("save", 1.5), ("slice", 1.5),
     ("touch_returned", 1.5), ("deepcopy_eval", 1.0), ("repr", 0.5),
 ]
@@ -94,7 +94,7 @@ def generate(prop, seed, tier):
             name = S.wpick(T_OPS)
         else:
             name = S.wpick(EVAL_OPS)
-            if sl["kind"] == "direct3" and name in ("hdc", "hdc_small", "direct", "and", "or", "design", "plot_contour", "plot_iso", "cdf", "plot_dep", "plot_hist", "plot_mq", "slice"):
+            if sl["kind"] == "direct3" and name in ("hdc", "hdc_small", "direct", "and", "or", "design", "design_twice", "plot_contour", "plot_iso", "cdf", "plot_dep", "plot_hist", "plot_mq", "slice"):
                 name = S.pick(["pdf", "iform", "isorm", "draw_int", "marginal_icdf", "save"])
             if sl["kind"] == "direct2" and name in ("plot_dep", "plot_hist", "plot_mq", "slice"):
                 name = S.pick(["pdf", "iform", "hdc", "draw_int", "plot_contour"])
@@ -353,7 +353,7 @@ def run_op(slot, op, root):
         c = v.HighestDensityContour(m, 0.2, limits=lim, deltas=[(l[1] - l[0]) / 30 for l in lim])
         co = c.coordinates
         return (np.asarray(co, dtype=float) if not isinstance(co, list) else [np.asarray(p, dtype=float) for part in co for p in part]), inputs
-    if name in ("direct", "and", "or", "design", "plot_contour", "save"):
+    if name in ("direct", "and", "or", "design", "design_twice", "plot_contour", "save"):
         if slot.n_dim == 2:
             sample = arr(np.asarray(m.draw_sample(1500, random_state=int(op["aseed"] % 9973)), dtype=float))
             if name == "direct":
@@ -366,9 +366,23 @@ def run_op(slot, op, root):
                 c = v.IFORMContour(m, 0.1, n_points=10)
         else:
             c = v.IFORMContour(m, 0.1, n_points=10)
-        co = np.asarray(c.coordinates, dtype=float)
+        co = np.array(c.coordinates, dtype=float, copy=True)
+        if isinstance(c.coordinates, np.ndarray) and c.coordinates.dtype != object:
+            # the contour object is the caller's from now on: what is done with it must not change it
+            inputs.append((c.coordinates, (c.coordinates.copy(), c.coordinates.shape, c.coordinates.strides, c.coordinates.dtype)))
         if name == "design":
             return [co, np.asarray(v.calculate_design_conditions(c, steps=5), dtype=float)], inputs
+        if name == "design_twice":
+            # design conditions the other way round and with steps the function refuses (a vertical line
+            # through a contour vertex crosses the contour more than twice -> AssertionError by design),
+            # the exception caught; then the ordinary request on the same contour object
+            sw = bool(rng.integers(0, 2))
+            first = None
+            try:
+                first = np.asarray(v.calculate_design_conditions(c, steps=[float(t) for t in np.sort(np.unique(co[:, 1 if sw else 0]))[1:-1]], swap_axis=sw), dtype=float)
+            except (AssertionError, ValueError, IndexError) as e:
+                first = "EXC:" + type(e).__name__
+            return [co, first, np.asarray(v.calculate_design_conditions(c, steps=5, swap_axis=sw), dtype=float), np.asarray(v.calculate_design_conditions(c, steps=5), dtype=float)], inputs
         if name == "plot_contour":
             smp = arr(_points(slot, rng, 6))
             ax = v.plot_2D_contour(c, sample=smp, design_conditions=None, swap_axis=bool(rng.integers(0, 2)))
